@@ -135,6 +135,8 @@ def prop_tree(case, model_cls=SIRModel, name='Gillespie_SIR', walk=None, max_dep
         classes.append('finite-tmax')
     if case['gc'].get('zero_weights') and case.get('ew'):
         classes.append('zero-weight-edges')
+    if case['gc'].get('selfloops'):
+        classes.append('self-loops')
     res = Result(fails, nontrivial=flags['nt'], classes=classes)
     res.stats = stats
     return res
@@ -224,7 +226,7 @@ def run_exhaustive(ctx, sub, cases, modname, funcname, nproc=16):
 
 @st.composite
 def walk_case(draw, sis=False, nmax=6):
-    gc = draw(gen.graph_case(1, nmax, labels=('int', 'perm', 'str', 'tuple')))
+    gc = draw(gen.graph_case(1, nmax, labels=('int', 'perm', 'str', 'tuple'), selfloops=True))
     if gc['ew'] and draw(st.integers(0, 3)) == 0:
         lab = list(gc['ew'])[0]
         gc['ew'][lab] = [0.0 if draw(st.integers(0, 2)) == 0 else w for w in gc['ew'][lab]]     # zero-weight candidates
